@@ -217,8 +217,10 @@ def enclosing_class(prog, mod, lineno):
 def site_obs(prog):
     obs = []
     sites = construction_sites(prog)
-    if len(sites) < 18:
-        raise model.AnchorError(f"who-may-construct scan found only {len(sites)} density construction sites (floor 18)")
+    if len(sites) < 8:
+        # a guard against a scan that stopped resolving constructor calls (today: 21 sites); structural refactorings that merge
+        # duplicated construction code legitimately lower the count
+        raise model.AnchorError(f"who-may-construct scan found only {len(sites)} density construction sites (floor 8)")
     for mod, qn, fname, kws, line in sites:
         cls = enclosing_class(prog, mod, line)
         key = (mod, cls, fname)
@@ -337,7 +339,7 @@ def obligations(tier):
     return obs
 
 
-FLOORS = {"group:mass": 24, "group:linalg": 4, "group:normalize": 3, "group:ctor": 4, "group:site": 18, "group:after": 230}
+FLOORS = {"group:mass": 24, "group:linalg": 4, "group:normalize": 3, "group:ctor": 4, "group:site": 8, "group:after": 230}
 LEVEL = "proof"
 EXPLANATION = ("Closed-form mass (compute_lnZ / log_integral* / integral* / integrate('1')), utils/linalg.py against its summary, normalisation, "
                "every density constructor argument combination, and a who-may-construct scan: every library site constructing a GaussianPDF "
